@@ -121,7 +121,7 @@ func wlRunCase(c *wlCase, backend string, rt node.RootType, st *wlStats, maxAcce
 	add := func(kind, msg string, v any) {
 		out = append(out, wlFinding{Kind: kind, Backend: backend, Root: fmt.Sprint(rt), Msg: msg, Case: map[string]any{"m1": c.M1, "ops": c.Ops, "m2": c.M2}, Variant: v})
 	}
-	if st.cases.Load()%4 == 1 {
+	if st.cases.Load()%wlConvEvery == 1 {
 		if msg := wlConverging(ctx, c, backend, rt, st); msg != "" {
 			add("served-wrong", msg, nil)
 		}
@@ -386,6 +386,9 @@ func wlNoopOverwrite(c *wlCase) bool {
 	return false
 }
 
+// wlConvEvery: the converging-candidates leg runs for every n-th case (flag -convevery).
+var wlConvEvery int64 = 4
+
 // wlConverging: two pending candidates A (the case's batch) and B (another batch) of version 1, both continued in version 2 by
 // batches that lead to the same contents, so that the second commit of version 2 finds its root already present.  Whatever the
 // database serves for (A, C) and for (B, C) must give C when applied at its start root; it may decline either.
@@ -526,8 +529,12 @@ func wlogReplay(args []string) int {
 	fs := flag.NewFlagSet("wlog-replay", flag.ExitOnError)
 	in := fs.String("in", "-", "cases")
 	out := fs.String("out", "-", "summary JSON")
+	convEvery := fs.Int64("convevery", 4, "the converging-candidates leg runs for every n-th case")
 	maxAccept := fs.Int("maxaccept", 1000, "harmless corrupted variants tried per case (each needs a fresh database)")
 	fs.Parse(args)
+	if *convEvery > 0 {
+		wlConvEvery = *convEvery
+	}
 	r, err := openIn(*in)
 	if err != nil {
 		return 2
